@@ -367,8 +367,10 @@ impl ActorCell {
     pub(crate) fn terminate(&self) {
         let mut pending = vec![self.clone()];
         while let Some(actor) = pending.pop() {
-            // We don't need to notify of exit if we're already stopping or stopped.
-            if actor.get_status() <= ActorStatus::Upgrading {
+            // We don't need to notify of exit if we're already stopped. A draining actor is still
+            // working through its mailbox and a stopping one may still be inside `post_stop`:
+            // both have to be killed, or they keep running beneath an actor that is gone.
+            if actor.get_status() < ActorStatus::Stopped {
                 actor.kill();
             }
 
